@@ -88,6 +88,37 @@ def case_mean_moments(ctx, nf, grid, layout, band, nan_moment=False):
         ctx.check(ctx.implies(ok, ctx.And(ctx.le(-180, md[p]), ctx.le(md[p], 180))), "D-RNG.dir")
 
 
+def case_mean_enum(ctx, nf, grid, layout):
+    """as case_mean_moments, but on a float64 frequency coordinate with every concrete placement of (fmin,fmax)
+    relative to the grid (on nodes, between nodes, outside): exhaustive over the order types of the band, and
+    independent of how the implementation selects the band (mask, label slice, ...)"""
+    C.shim_modules(ctx)
+    f = C.float_grid(grid, nf)
+    shp = C.layout_shape(layout)
+    e = ctx.reals("e", shp + (nf,))
+    for x in e.flat:
+        ctx.assume(ctx.lt(0, x))
+    mom = {nm: ctx.reals(nm, shp + (nf,)) for nm in ("a1", "b1", "a2", "b2")}
+    s = C.make_1d(ctx, f, e, layout, **mom)
+    E = e.reshape(-1, nf)
+    fx = ctx.const(f)
+    for fmin, fmax in C.band_pairs(f):
+        idx = [i for i in range(nf) if fmin <= f[i] < fmax]
+        if len(idx) < 2:
+            continue
+        m0 = C.values(s.m0(fmin, fmax))
+        for nm in ("a1", "b1"):
+            mv = C.values(ctx.noraise("D-AB.raise", getattr(s, "mean_" + nm), fmin, fmax))
+            M = mom[nm].reshape(-1, nf)
+            for p in range(E.shape[0]):
+                g = [M[p, i] * E[p, i] for i in range(nf)]
+                ref = C.trapz_ref(ctx, fx, g, idx)
+                m0ref = C.trapz_ref(ctx, fx, list(E[p]), idx)
+                ctx.check(ctx.eq(m0[p], m0ref), "D-AB.enum.m0", info=dict(band=(fmin, fmax)))
+                ctx.check(ctx.eq(mv[p] * m0ref, ref), "D-AB.enum", info=dict(moment=nm, band=(fmin, fmax), nodes=idx))
+    ctx.reach("D-AB.enum")
+
+
 def case_per_frequency(ctx, nf, layout):
     """per-frequency and peak variants use the moments at that frequency"""
     f, e, mom, s = _build_1d(ctx, nf, "uniform", layout)
@@ -252,6 +283,8 @@ def cases(tier):
     add("case_mean_moments", "mean_nf3_uniform_time_default", nf=3, grid="uniform", layout="time", band="default")
     add("case_mean_moments", "mean_nf3_nanmoment", nf=3, grid="uniform", layout="scalar", band="band", nan_moment=True)
     add("case_mean_moments", "mean_nf2_sym", nf=2, grid="sym", layout="scalar", band="band")
+    add("case_mean_enum", "mean_enum_nf3_scalar", nf=3, grid="nonuniform0", layout="scalar", opts=dict(weight=30))
+    add("case_mean_enum", "mean_enum_nf4_time", nf=4, grid="uniform", layout="time", opts=dict(weight=60))
     add("case_per_frequency", "perfreq_nf3_time", nf=3, layout="time", opts=dict(weight=20))
     add("case_per_frequency", "perfreq_nf2_scalar", nf=2, layout="scalar")
     for nf in ([2, 3, 4] if q else [2, 3, 4, 5, 6]):
